@@ -5,6 +5,9 @@
    mutable input; the clauses of FanoutObs are invariants of every played step. *)
 EXTENDS FanoutGraph
 B == BOOLEAN
+OnlyTrue == {TRUE}
+Exps0  == {<<>>, <<FALSE>>, <<TRUE>>}
+ProcsT == {<<>>, <<TRUE>>}
 Procs2 == {<<>>, <<FALSE>>, <<TRUE>>, <<FALSE, TRUE>>, <<TRUE, FALSE>>}
 Procs1 == {<<>>, <<FALSE>>, <<TRUE>>}
 Exps2  == {<<>>, <<FALSE>>, <<TRUE>>, <<FALSE, FALSE>>, <<FALSE, TRUE>>, <<TRUE, FALSE>>, <<TRUE, TRUE>>}
